@@ -1,6 +1,8 @@
 """C01 — simulated local ancestry is inherited unchanged from the parental haplotypes."""
 from __future__ import annotations
 
+import os
+
 import itertools
 
 from . import common as C
@@ -190,9 +192,14 @@ def gens_of(r):
     for g in r["gens"]:
         calls, complete = SD.split_calls(g)
         try:
+            if os.environ.get("VERIF_TAPES") == "calls":  # experiment: exercise the fallback on the unchanged tree
+                raise AssertionError("forced")
             tapes = SD.decode_generation(g)
-        except AssertionError as e:
-            tapes = None
+        except Exception:  # noqa: the generator's log has another shape than the decoder knows
+            try:
+                tapes = SD.tapes_from_calls(g)
+            except Exception:  # noqa
+                tapes = None
         gens.append(dict(chroms=g["chroms"], cmEnd=[int(round(e[1])) for e in g["end_coords"]], endBp=[e[0] for e in g["end_coords"]], prev=g["prev"], prev_after=g["prev_after"], children=g["children"], calls=calls, calls_complete=complete, tapes=tapes))
     return gens
 
